@@ -270,7 +270,11 @@ func isRapidStop(r any) bool {
 
 // WAL writes the case about to be executed to the write-ahead file, so the
 // driver can recover it if the process dies.
-func (s *Stats) WAL(c any) {
+func (s *Stats) WAL(c any) { s.WALFinding(c, "") }
+
+// WALFinding is WAL with the id of the known finding whose trigger predicate
+// holds for the operation about to run (reproducer / no-exclusion mode).
+func (s *Stats) WALFinding(c any, finding string) {
 	if *flagOut == "" {
 		return
 	}
@@ -278,7 +282,7 @@ func (s *Stats) WAL(c any) {
 	if err != nil {
 		return
 	}
-	f := Failure{Property: s.Property, Test: s.Test, Clause: "process-death", Case: cb}
+	f := Failure{Property: s.Property, Test: s.Test, Clause: "process-death", Finding: finding, Case: cb}
 	b, _ := json.Marshal(f)
 	_ = os.WriteFile(s.fileBase()+".wal.json", b, 0o644)
 }
